@@ -480,11 +480,192 @@ def _eval_nguards(case):
     return dict(findings=fnd, nontrivial=verdict in ('accept', 'reject'), sig=line, tags=tags)
 
 
+# ---- argument links (round 3): what the REAL wrappers hand to the native entry points ----------------------------------
+#
+# `links` cases: a valid call of a public wrapper is executed in this process with the native entry point of one extracted
+# call site replaced by a recorder (the native code itself is NOT run: the recorder raises after noting its arguments). The
+# descriptors of the caller's arguments (`W.`) and of the recorded native arguments (`N.`) go to the Lean driver, which
+# evaluates `Link.holds` for every link of `Generated.argLinkTable` (the definition the theorems use): a link that does not
+# hold on a real call is a broken tie (`model` finding). For the sites with a row in `Generated.checkFlowTable` the guard
+# helper is recorded as well and `Flows` is evaluated on (helper arguments, native arguments).
+
+class _Captured(Exception):
+    pass
+
+
+def link_sites():
+    """[(wrapper 'module.function', native '_module.name', index)] and {(w, h, n, i)} from the generated tables"""
+    import re
+    p = core.LEAN / 'Mahotas' / 'Generated' / 'Guards.lean'
+    txt = p.read_text() if p.exists() else ''
+    m = re.search(r'def argLinkTable .*?:= \[(.*?)\n\]', txt, re.S)
+    sites = [(a, b, int(i)) for a, b, i in re.findall(r'\("([\w.]+)", "([\w.]+)", (\d+), links_', m.group(1))] if m else []
+    m = re.search(r'def checkFlowTable .*?:= \[(.*?)\n\]', txt, re.S)
+    flows = [(a, h, b, int(i)) for a, h, b, i in re.findall(r'\("([\w.]+)", "(\w+)", "([\w.]+)", (\d+), \[', m.group(1))] if m else []
+    return sites, flows
+
+
+# wrapper (as in the link table) -> catalogue entry that reaches it with a valid call
+LINK_WRAPPERS = {
+    'convolve.find': 'mahotas.find', 'convolve.convolve': 'mahotas.convolve', 'convolve.template_match': 'mahotas.template_match',
+    'convolve.rank_filter': 'mahotas.rank_filter', 'convolve.median_filter': 'mahotas.median_filter', 'convolve.mean_filter': 'mahotas.mean_filter',
+    'morph.erode': 'mahotas.erode', 'morph.dilate': 'mahotas.dilate', 'morph.hitmiss': 'mahotas.hitmiss',
+    'morph.majority_filter': 'mahotas.majority_filter', 'morph.cwatershed': 'mahotas.cwatershed', 'morph.close_holes': 'mahotas.close_holes',
+    'morph.locmax': 'mahotas.locmax', 'morph.regmin': 'mahotas.regmin', 'labeled.label': 'mahotas.label', 'labeled.borders': 'mahotas.labeled.borders',
+    'labeled.border': 'mahotas.labeled.border', 'labeled.relabel': 'mahotas.labeled.relabel', 'labeled.labeled_sum': 'mahotas.labeled.labeled_sum',
+    'interpolate.shift': 'mahotas.interpolate.shift', 'interpolate.zoom': 'mahotas.interpolate.zoom',
+    'interpolate.spline_filter1d': 'mahotas.interpolate.spline_filter1d', 'thin.thin': 'mahotas.thin.thin',
+    'features_texture.cooccurence': 'mahotas.features.texture.cooccurence', 'center_of_mass.center_of_mass': 'mahotas.center_of_mass.center_of_mass',
+    'labeled.bbox': 'mahotas.labeled.bbox', 'histogram.fullhistogram': 'mahotas.histogram.fullhistogram', 'polygon.convexhull': 'mahotas.polygon.convexhull',
+    'convolve.haar': 'mahotas.haar', 'convolve.daubechies': 'mahotas.daubechies', 'segmentation.slic': 'mahotas.segmentation.slic',
+    'features_surf.integral': 'mahotas.features.surf.integral', 'features_surf.descriptors': 'mahotas.features.surf.descriptors',
+    'morph.subm': 'mahotas.morph.subm', 'bbox.bbox': 'mahotas.bbox.bbox',
+}
+
+
+def _resolve(dotted):
+    import importlib
+    parts = dotted.split('.')
+    for i in range(len(parts) - 1, 0, -1):
+        try:
+            obj = importlib.import_module('.'.join(parts[:i]))
+        except ImportError:
+            continue
+        for p_ in parts[i:]:
+            obj = getattr(obj, p_)
+        return obj
+    raise KeyError(dotted)
+
+
+def _eval_links(case):
+    import importlib
+    w, n, idx = case['site']
+    spec = case['call']
+    names, _ = param_names(spec['fn'])
+    try:
+        args = [specs.build(a) for a in spec['args']]
+        kw = {k: specs.build(v) for k, v in spec['kw'].items()}
+    except Exception:
+        return dict(findings=[], nontrivial=False, sig=None, tags=dict(kind='links', outcome='unbuildable'))
+    bound = dict(zip(names, args))
+    bound.update(kw)
+    try:                                    # parameters left at their defaults are arguments too
+        ba = inspect.signature(_resolve(spec['fn'])).bind(*args, **kw)
+        ba.apply_defaults()
+        bound = dict(ba.arguments)
+    except Exception:
+        pass
+    wmod = importlib.import_module('mahotas.' + w.rsplit('.', 1)[0].replace('features_', 'features.'))
+    nmodname, nfn = n.split('.')
+    alias = '_thin' if n == '_thin.thin' else nmodname
+    cparams = native_table().get(n)
+    seen = []
+    helper_seen = []
+    # the name the wrapper module uses for the native module / function
+    holder, attr, orig = None, None, None
+    if n == '_thin.thin':
+        nm = importlib.import_module('mahotas._thin')
+        holder, attr = nm, 'thin'
+    elif hasattr(wmod, alias):
+        holder, attr = getattr(wmod, alias), nfn
+    else:
+        import mahotas
+        holder, attr = importlib.import_module(('mahotas.features.' if nmodname in ('_lbp', '_surf', '_texture', '_zernike') else 'mahotas.') + nmodname), nfn
+    orig = getattr(holder, attr)
+
+    def recorder(*a):
+        seen.append(a)
+        if len(seen) > idx:
+            raise _Captured()
+        return orig(*a)
+    hname = case.get('helper')
+    horig = getattr(wmod, hname, None) if hname else None
+    if hname and horig is None and w.startswith('interpolate'):
+        horig = getattr(wmod, hname, None)
+
+    def hrecorder(*a, **k):
+        helper_seen.append((a, k))
+        return horig(*a, **k)
+    # a module object cannot be patched attribute-wise for builtins of extension modules in all cases: wrap the module in a proxy
+    class _Proxy:
+        def __init__(self, m, at, fn):
+            self.__dict__.update(_m=m, _at=at, _fn=fn)
+
+        def __getattr__(self, k):
+            return self._fn if k == self._at else getattr(self._m, k)
+    patched = []
+    try:
+        if n == '_thin.thin':
+            import mahotas._thin as tm
+            patched.append((tm, 'thin', tm.thin))
+            tm.thin = recorder
+        else:
+            for name_, val in list(vars(wmod).items()):
+                if val is holder:
+                    patched.append((wmod, name_, val))
+                    setattr(wmod, name_, _Proxy(holder, attr, recorder))
+            if not patched:          # `import mahotas._bbox` inside the function: patch the package attribute
+                import mahotas
+                pkg = importlib.import_module('mahotas.features') if nmodname in ('_lbp', '_surf', '_texture', '_zernike') else mahotas
+                patched.append((pkg, nmodname, getattr(pkg, nmodname)))
+                setattr(pkg, nmodname, _Proxy(holder, attr, recorder))
+        if horig is not None:
+            patched.append((wmod, hname, horig))
+            setattr(wmod, hname, hrecorder)
+        out = 'returned'
+        try:
+            import warnings
+            fn = _resolve(spec['fn'])
+            with warnings.catch_warnings(), np.errstate(all='ignore'):
+                warnings.simplefilter('ignore')
+                fn(*args, **kw)
+        except _Captured:
+            out = 'captured'
+        except Exception as e:
+            out = 'exc:' + type(e).__name__
+    finally:
+        for m_, k_, v_ in reversed(patched):
+            setattr(m_, k_, v_)
+    tags = dict(kind='links', site=f'{w}->{n}#{idx}', outcome=out)
+    if out != 'captured' or cparams is None or len(seen) <= idx or len(seen[idx]) != len(cparams):
+        return dict(findings=[], nontrivial=False, sig=None, tags=tags)
+    toks = [f'c11 kind=links w={w} n={n} i={idx}']
+    for nm_, v in bound.items():
+        toks += _desc_tokens('W.' + nm_, v)
+    for nm_, v in zip(cparams, seen[idx]):
+        toks += _desc_tokens('N.' + nm_, v)
+    lines = [' '.join(toks)]
+    if hname and helper_seen:
+        import inspect as _i
+        hp = list(_i.signature(horig).parameters)
+        ha, hk = helper_seen[0]
+        hb = dict(zip(hp, ha))
+        hb.update(hk)
+        toks = [f'c11 kind=flows w={w} h={hname} n={n} i={idx}']
+        for nm_, v in hb.items():
+            toks += _desc_tokens('H.' + nm_, v)
+        for nm_, v in zip(cparams, seen[idx]):
+            toks += _desc_tokens('N.' + nm_, v)
+        lines.append(' '.join(toks))
+    drv = core.drive(lines)
+    fnd = []
+    v0 = drv[0].get('verdict', 'error')
+    tags['verdict'] = v0
+    if v0 != 'linked':
+        fnd.append(dict(kind='model', key=f'links:{w}->{n}#{idx}:{v0}', detail=dict(line=lines[0], answer=drv[0])))
+    if len(drv) > 1:
+        v1 = drv[1].get('verdict', 'error')
+        tags['flows'] = v1
+        if v1 != 'flows':
+            fnd.append(dict(kind='model', key=f'flows:{w}:{hname}->{n}:{v1}', detail=dict(line=lines[1], answer=drv[1])))
+    return dict(findings=fnd, nontrivial=True, sig=lines[0], tags=tags)
+
+
 def evaluate(cases):
     out = []
     for c in cases:
         k = c.get('kind')
-        out.append(_eval_guards(c) if k == 'guards' else _eval_nguards(c) if k == 'nguards' else _eval_call(c))
+        out.append(_eval_guards(c) if k == 'guards' else _eval_nguards(c) if k == 'nguards' else _eval_links(c) if k == 'links' else _eval_call(c))
     return out
 
 
@@ -548,11 +729,23 @@ def cases(rng, tier):
             args, muts = valid, []
         mod = 'mahotas.features.' if target.split('.')[0] in ('_lbp', '_surf', '_texture', '_zernike') else 'mahotas.'
         out.append(dict(kind='nguards', call=dict(fn=mod + target, args=args, kw={}), muts=muts))
+    # argument links: valid calls of the wrappers that have a catalogue entry, every extracted call site in turn
+    nl = dict(quick=320, thorough=6000, search=0)[tier]
+    sites, flows = link_sites()
+    sites = [s_ for s_ in sites if s_[0] in LINK_WRAPPERS and LINK_WRAPPERS[s_[0]] in catalog.ENTRIES]
+    helper_of = {(w_, n_, i_): h_ for w_, h_, n_, i_ in flows}
+    for j in range(nl if sites else 0):
+        w_, n_, i_ = sites[j % len(sites)]
+        valid = catalog.valid_call(rng, LINK_WRAPPERS[w_], maxlen=8, cap=300)
+        c = dict(kind='links', site=[w_, n_, i_], call=valid, muts=[])
+        if (w_, n_, i_) in helper_of:
+            c['helper'] = helper_of[(w_, n_, i_)]
+        out.append(c)
     return out
 
 
 def shrink(case):
-    if case.get('kind') in ('guards', 'nguards'):
+    if case.get('kind') in ('guards', 'nguards', 'links'):
         return
     # first: fewer mutations; then smaller arrays
     for m in case.get('muts', []):
